@@ -17,11 +17,14 @@ func VerifC17_FstreeWriteFile() {
 }
 
 func VerifC17_FstreePut() {
-	fst := &FSTree{name: "t", basePath: "/r/db"}
+	root := rt.Root("/r/db")
+	fst := &FSTree{name: "t", basePath: root}
 	w, _ := record.NewWrapper("t:some/key", &record.Meta{}, 1, []byte{1})
+	dest := root + "/some/key"
+	rt.NativeAtomicDest(dest)
 	rt.FsFaults(2)
 	_, err := fst.Put(w)
-	dest := "/r/db/some/key"
+	rt.NativeEnd()
 	// Put may retry once after creating the directory: at most two publishing
 	// attempts, each of which must satisfy the automaton; checked on the last
 	attempts := 0
